@@ -33,8 +33,9 @@ type SimAPI struct {
 	// Fault decides the fate of one call; nil or "" = ok.
 	Fault func(c Call) string
 	// Admit, when set, is invoked on create/update of jobs and jobconfigs (webhooks).
-	Admit func(resource, verb string, old, obj runtime.Object) (runtime.Object, error)
-	Calls []Call // log of mutating calls (cleared by the engine)
+	Admit   func(resource, verb string, old, obj runtime.Object) (runtime.Object, error)
+	curVerb string
+	Calls   []Call // log of mutating calls (cleared by the engine)
 	// Observe, when set, is called for every controller call at the instant it was applied
 	// (or refused), so that monitors can judge it against the state at that instant.
 	Observe func(c Call)
@@ -55,7 +56,11 @@ type Call struct {
 type Event struct {
 	Type string // add | update | delete
 	Obj  runtime.Object
+	Src  string // API verb that caused it (create | update | delete | "" for external writers)
 }
+
+// DebugNormalize, when set, sees every submitted update before and after normalisation.
+var DebugNormalize func(in, out runtime.Object)
 
 const (
 	FaultErr        = "err"         // server error, not applied
@@ -108,7 +113,28 @@ func normalize(obj runtime.Object) runtime.Object {
 func (a *SimAPI) nextRV() string { a.rv++; return fmt.Sprint(a.rv) }
 
 func (a *SimAPI) emit(resource, typ string, obj runtime.Object) {
-	a.Pending[resource] = append(a.Pending[resource], Event{typ, obj.DeepCopyObject()})
+	a.Pending[resource] = append(a.Pending[resource], Event{typ, obj.DeepCopyObject(), a.curVerb})
+}
+
+// SortDeleteRuns orders, by object key, every maximal run of consecutive events caused by
+// delete calls among the events appended since index from: deletes issued concurrently reach
+// the server in an arbitrary order, which must not leak into the explored history.
+func (a *SimAPI) SortDeleteRuns(resource string, from int) {
+	evs := a.Pending[resource]
+	i := from
+	for i < len(evs) {
+		j := i
+		for j < len(evs) && evs[j].Src == "delete" {
+			j++
+		}
+		if j > i {
+			seg := evs[i:j]
+			sort.SliceStable(seg, func(x, y int) bool { return keyOf(seg[x].Obj) < keyOf(seg[y].Obj) })
+			i = j
+		} else {
+			i++
+		}
+	}
 }
 
 // Get returns the authoritative object (not a copy) or nil.
@@ -181,6 +207,10 @@ func (a *SimAPI) log(c Call) {
 
 // Create adds an object. fromController=false bypasses faults and the call log (user action).
 func (a *SimAPI) Create(resource string, in runtime.Object, fromController bool) (runtime.Object, error) {
+	if fromController {
+		a.curVerb = "create"
+		defer func() { a.curVerb = "" }()
+	}
 	obj := normalize(in)
 	m, _ := meta.Accessor(obj)
 	c := Call{Verb: "create", Resource: resource, Key: keyOf(obj), Result: "ok", Obj: obj}
@@ -227,7 +257,14 @@ func (a *SimAPI) Create(resource string, in runtime.Object, fromController bool)
 
 // Update replaces spec+metadata (subresource "") or status (subresource "status").
 func (a *SimAPI) Update(resource, subresource string, in runtime.Object, fromController bool) (runtime.Object, error) {
+	if fromController {
+		a.curVerb = "update"
+		defer func() { a.curVerb = "" }()
+	}
 	obj := normalize(in)
+	if DebugNormalize != nil {
+		DebugNormalize(in, obj)
+	}
 	m, _ := meta.Accessor(obj)
 	c := Call{Verb: "update", Resource: resource, Subresource: subresource, Key: keyOf(obj), Result: "ok", Obj: obj}
 	f, err := a.fault(&c, fromController)
@@ -276,6 +313,20 @@ func (a *SimAPI) Update(resource, subresource string, in runtime.Object, fromCon
 		nm.SetDeletionTimestamp(cm.GetDeletionTimestamp())
 	}
 	nm, _ := meta.Accessor(next)
+	// an update that changes nothing is a no-op on a real API server: no new
+	// resourceVersion, no watch event
+	nm.SetResourceVersion(cm.GetResourceVersion())
+	if nb, err1 := json.Marshal(next); err1 == nil {
+		if cb, err2 := json.Marshal(cur); err2 == nil && string(nb) == string(cb) {
+			if fromController {
+				a.log(c)
+			}
+			if f == FaultAppliedErr {
+				return nil, kerrors.NewInternalError(fmt.Errorf("injected after apply"))
+			}
+			return cur.DeepCopyObject(), nil
+		}
+	}
 	nm.SetResourceVersion(a.nextRV())
 	if nm.GetDeletionTimestamp() != nil && len(nm.GetFinalizers()) == 0 {
 		delete(a.objs[resource], c.Key)
@@ -307,6 +358,10 @@ func copyStatus(dst, src runtime.Object) {
 // Delete: objects with finalizers get a deletion timestamp; pods are deleted gracefully
 // (deletion timestamp; the kubelet model removes them later) unless force.
 func (a *SimAPI) Delete(resource, key string, force, fromController bool) error {
+	if fromController {
+		a.curVerb = "delete"
+		defer func() { a.curVerb = "" }()
+	}
 	c := Call{Verb: "delete", Resource: resource, Key: key, Force: force, Result: "ok"}
 	_, err := a.fault(&c, fromController)
 	if err != nil {
